@@ -116,7 +116,8 @@ Definition no_chg : chg := mk_chg false None None.
 
 Record crew : Type := mk_crew {
   machines : list (mid * mach);     (* ordinary machines (everything but captain and timers) *)
-  wedged : bool;                    (* the captain holds a message that was no operation: inert from then on *)
+  wedged : bool;                    (* the captain holds a message that was no operation: inert from then on
+                                         (before the repair of D56; no step sets it any more) *)
   cache : list (mid * chg);         (* Crew.changed *)
   previous : list (mid * chg);      (* Crew.previous: the last report per machine *)
   tm_dirty : bool                   (* a change of the timers machine is pending *)
@@ -269,7 +270,7 @@ Definition present (c : crew) (msg : json) (m : mid) : outcome (crew * bool * op
   if String.eqb m captain_id then
     if wedged c then Done (c, true, None)
     else match as_crew_op msg with
-         | NotOp => Done (mk_crew (machines c) true (cache c) (previous c) (tm_dirty c), true, None)
+         | NotOp => Done (c, true, None)      (* since the repair of D56 a message that is no operation leaves no trace *)
          | BadOp => Unmodelled
          | IsOp op => if op_ordinary op then Done (do_op c op, true, None) else Unmodelled
          end
